@@ -31,7 +31,7 @@ Theorem C18_wire_final : forall (progs : nat -> list msg) (tr : list label) (s :
   (forall i m, In m (progs i) -> mbytes m <> []) -> reach progs tr s ->
   holder s = None -> (forall i, tasks s i = []) ->
   wire s = wire_of (order s) /\ fdat s = fds_of 0 (order s) /\ forall i, proj i (order s) = progs i.
-Proof. intros progs tr s Hne Hr Hh Ht. exact (wire_final progs tr s Hne Hr (conj Hh Ht)). Qed.
+Proof. exact wire_final'. Qed.
 Print Assumptions C18_wire_final.
 
 (* the executable replay used by the correspondence check stays inside the step relation *)
